@@ -72,6 +72,7 @@ class Grid:
                 f"New shape: {value.shape}, Old shape: {self._points.shape}."
             )
         self._points = value
+        self._kdtree = None
 
     @property
     def weights(self):
